@@ -301,7 +301,10 @@ pub fn run_conn(mut st: SimState, cfg: ConnCfg) -> Outcome {
     let r = {
         let sh = &mut shim;
         let tr = sim.clone();
-        guarded(move || MysqlIntermediary::run_on(sh, tr))
+        // the crate has three entry points that must be the same server; odd ambient variants
+        // enter through run_on_stream
+        let via_stream = ENV.with(|e| e.get()) % 2 == 1;
+        guarded(move || if via_stream { MysqlIntermediary::run_on_stream(sh, tr) } else { MysqlIntermediary::run_on(sh, tr) })
     };
     let res = match r {
         Ok(Ok(())) => ConnResult::Ok,
